@@ -140,7 +140,7 @@ pub fn requester_case(rng: &mut Rng, keys: &mut Keys, cid: u64) -> (String, Hash
         let req = outstanding[rng.below(outstanding.len() as u64) as usize].clone();
         // choose what arrives for this request
         let is_s0 = matches!(&req, RepairRequestType::Shred(_, s, _) if wincode::serialize(s).map(|x| x[..8] == [0u8; 8]).unwrap_or(false));
-        let mode = if attack && is_s0 && !attacked.contains(&r_req(&req, &key_of)) { attacked.insert(r_req(&req, &key_of)); "byzantine-slice" } else { match rng.below(20) { 0..=10 => "honest", 11 => "nack", 12 => "bad-proof", 13 => "wrong-variant", 14 => "wrong-root", 15 => "replay", 16 => "unsolicited", 17 => "wrong-shred", 18 => "byzantine-slice", 19 => "flipped-last-flag", _ => "honest" } };
+        let mode = if attack && is_s0 && !attacked.contains(&r_req(&req, &key_of)) { attacked.insert(r_req(&req, &key_of)); "byzantine-slice" } else { match rng.below(20) { 0..=9 => "honest", 10 => "tag-flipped", 11 => "nack", 12 => "bad-proof", 13 => "wrong-variant", 14 => "wrong-root", 15 => "replay", 16 => "unsolicited", 17 => "wrong-shred", 18 => "byzantine-slice", 19 => "flipped-last-flag", _ => "honest" } };
         let honest = |req: &RepairRequestType| -> RepairResponse {
             match req {
                 RepairRequestType::LastSliceRoot(_) => { let l = w.built.len() - 1; RepairResponse::LastSliceRoot(req.clone(), slice_index(l as u64), w.roots[l].clone(), w.tree.create_proof(l)) }
@@ -173,6 +173,12 @@ pub fn requester_case(rng: &mut Rng, keys: &mut Keys, cid: u64) -> (String, Hash
             },
             "flipped-last-flag" => match honest(&req) {
                 RepairResponse::Shred(r, sh) => { let mut b = wincode::serialize(&sh).unwrap(); b[20] ^= 1; match wincode::deserialize::<alpenglow::shredder::Shred>(&b) { Ok(x) => RepairResponse::Shred(r, x), Err(_) => RepairResponse::Shred(r, sh) } }
+                x => x,
+            },
+            // the leader's validly signed shred with its (unsigned) data / coding type tag flipped on the wire:
+            // passes ValidatedShred::try_new, must be ignored by the requester (the request stays outstanding)
+            "tag-flipped" => match honest(&req) {
+                RepairResponse::Shred(r, sh) => { let mut b = wincode::serialize(&sh).unwrap(); let t = u32::from_le_bytes(b[0..4].try_into().unwrap()); b[0..4].copy_from_slice(&(if t == 0 { 1u32 } else { 0u32 }).to_le_bytes()); match wincode::deserialize::<alpenglow::shredder::Shred>(&b) { Ok(x) => RepairResponse::Shred(r, x), Err(_) => RepairResponse::Shred(r, sh) } }
                 x => x,
             },
             "byzantine-slice" => match &req {
@@ -302,7 +308,7 @@ pub fn gen_c14(seed: u64, tier: Tier) -> CaseSet {
         descr.push(format!("case {}: responder, answers failing verification: {}, panicked: {}", cid, problems, panicked));
         cases.push(txt); cid += 1;
     }
-    stats.rule = "requester: a 1-2 slice block of a fresh leader is repaired through the real Repair state machine; for a randomly chosen outstanding request the next arriving response is correct (55%), a NACK, has a corrupted proof, the wrong variant, another (validly signed) slice's root, is a replay of an earlier response, unsolicited, a shred with another index, or a shred of a conflicting slice the (Byzantine) leader also signed; hostile responses routinely arrive before the correct one. responder: every request kind for existing / out-of-range slice and shred indices, a block it holds completely or only partially, an unknown block, known and unknown senders; every positive answer is verified with the real check_proof / check_proof_last / ValidatedShred::try_new. non-trivial = distinct trace".into();
+    stats.rule = "requester: a 1-2 slice block of a fresh leader is repaired through the real Repair state machine; for a randomly chosen outstanding request the next arriving response is correct (50%), the correct shred with its unsigned data / coding type tag flipped, a NACK, has a corrupted proof, the wrong variant, another (validly signed) slice's root, is a replay of an earlier response, unsolicited, a shred with another index, or a shred of a conflicting slice the (Byzantine) leader also signed; hostile responses routinely arrive before the correct one. responder: every request kind for existing / out-of-range slice and shred indices, a block it holds completely or only partially, an unknown block, known and unknown senders; every positive answer is verified with the real check_proof / check_proof_last / ValidatedShred::try_new. non-trivial = distinct trace".into();
     let mut v: Vec<_> = kinds_total.into_iter().collect(); v.sort();
     stats.distribution.push(("response_kinds".into(), v.iter().map(|(k, c)| format!("{}={}", k, c)).collect::<Vec<_>>().join(", ")));
     stats.distribution.push(("requester_cases_completed".into(), format!("{} of {}", completed, nreq)));
